@@ -1400,6 +1400,54 @@ Print Assumptions loopir_LEVINSON_real.
 """
 
 
+# ---------------------------------------------------------------- Marple routines: translation + theorems for the order-0 branches / the argument check
+MARPLE_PROOF = 'Proofs/LoopIRMarple0.v'
+MARPLE_BLOCK_HEAD = """
+(* The programs regenerated on this run are, term for term, the ones Proofs/LoopIRMarple0.v is about: its theorems apply. *)
+Require Import Spectrum.Theory.Ops Spectrum.Theory.Vec Spectrum.Model.CovarMarple Spectrum.Proofs.LoopIRMarple0.
+"""
+MARPLE_BLOCKS = {
+    'arcovar_marple': (['loopir_arcovar_marple_assert', 'loopir_arcovar_marple_order0'], """
+Lemma prog_arcovar_marple_is_ref : prog_arcovar_marple = prog_arcovar_marple_gen0.
+Proof. reflexivity. Qed.
+Theorem loopir_arcovar_marple_assert :
+  forall (F : Type) (OF : Ops F) (L : Laws OF) (feq : F -> F -> bool) (stop : Z -> F -> F -> bool) (t : bool) (x : list F) (order : nat),
+  (length x < order)%nat ->
+  run feq stop prog_arcovar_marple [Some (VArr t x); Some (VI (Z.of_nat order))] = OErr AssertionError /\\ arcovar_marple x order = None.
+Proof. intros. rewrite prog_arcovar_marple_is_ref. apply arcovar_marple_ir_assert; assumption. Qed.
+Theorem loopir_arcovar_marple_order0 :
+  forall (F : Type) (OF : Ops F) (L : Laws OF) (feq : F -> F -> bool) (stop : Z -> F -> F -> bool) (t : bool) (x : list F),
+  x <> [] ->
+  run feq stop prog_arcovar_marple [Some (VArr t x); Some (VI 0)] =
+  match arcovar_marple x 0 with
+  | Some (af, pf, ab, pb) => ORet [VArr false af; VF pf; VArr false ab; VF pb; VI 0]
+  | None => OErr AssertionError
+  end.
+Proof. intros. rewrite prog_arcovar_marple_is_ref. apply arcovar_marple_ir_order0; assumption. Qed.
+"""),
+    'modcovar_marple': (['loopir_modcovar_marple_order0'], """
+Lemma prog_modcovar_marple_is_ref : prog_modcovar_marple = prog_modcovar_marple_gen0.
+Proof. reflexivity. Qed.
+Theorem loopir_modcovar_marple_order0 :
+  forall (F : Type) (OF : Ops F) (L : Laws OF) (feq : F -> F -> bool) (stop : Z -> F -> F -> bool) (t : bool) (x : list F),
+  x <> [] ->
+  run feq stop prog_modcovar_marple [Some (VArr t x); Some (VI 0)] =
+  match modcovar_marple x 0 with
+  | Some (a, p) => ORet [VArr true a; VF p; VArr true []]
+  | None => OErr ValueError
+  end.
+Proof. intros. rewrite prog_modcovar_marple_is_ref. apply modcovar_marple_ir_order0; assumption. Qed.
+"""),
+}
+
+
+def reference_text(proof, name):
+    """the program text of <name> that <proof> was proved about (between its BEGIN/END GENERATED <name> markers)"""
+    t = open(os.path.join(vlib.COQ, proof)).read()
+    m = re.search(r'\(\* BEGIN GENERATED %s[^\n]*\*\)\n(.*?)\(\* END GENERATED %s \*\)' % (name, name), t, re.S)
+    return m.group(1).replace('prog_%s_gen0' % name, 'prog_%s' % name) if m else None
+
+
 def levinson_reference_text():
     """the program text Proofs/LoopIRLevinson.v was proved about (between its BEGIN/END markers)"""
     t = open(os.path.join(vlib.COQ, LEV_PROOF)).read()
@@ -1459,6 +1507,28 @@ def loopir_tie(ctx, names):
                     ctx.broken.append({'theorem': 'loopir: build of %s' % LEV_PROOF, 'where': LEV_PROOF, 'log': log[-1500:]}); same = False
         if same:
             gen += LEV_BLOCK; thms = LEV_THEOREMS
+    mar = [nm for nm in MARPLE_BLOCKS if nm in progs]
+    if mar:
+        # translation + theorems (order-0 branches, argument check): claimed only for the very program text they were proved about
+        claimed = []
+        for nm in mar:
+            ref = reference_text(MARPLE_PROOF, nm)
+            same = ref is not None and ' '.join(ref.split()) == ' '.join(progs[nm].coq().split())
+            info[nm]['theorem'] = ('applies: the regenerated program is the one %s is about (re-checked by reflexivity inside Coq)' % MARPLE_PROOF) if same else \
+                'does not apply: the regenerated program text differs from the one proved about; the exact evaluation tie decides'
+            if same:
+                claimed.append(nm)
+        if claimed:
+            vo = os.path.join(vlib.COQ, MARPLE_PROOF[:-2] + '.vo')
+            if not os.path.exists(vo) or os.path.getmtime(vo) < os.path.getmtime(os.path.join(vlib.COQ, MARPLE_PROOF)):
+                rc, log = vlib.make_cone(MARPLE_PROOF[:-2] + '.vo')
+                if rc != 0:
+                    ctx.broken.append({'theorem': 'loopir: build of %s' % MARPLE_PROOF, 'where': MARPLE_PROOF, 'log': log[-1500:]}); claimed = []
+        if claimed:
+            gen += MARPLE_BLOCK_HEAD + ''.join(MARPLE_BLOCKS[nm][1] for nm in claimed)
+            names = [t for nm in claimed for t in MARPLE_BLOCKS[nm][0]]
+            gen += ''.join('Print Assumptions %s.\n' % t for t in names)
+            thms = thms + names
     ok, _ = ctx.check_generated('LoopIR_%s' % ctx.pid, gen, thms)
     if not ok:
         if not thms:
